@@ -40,7 +40,9 @@ fn roots(t: &mut Toks, cx: &mut Ctx) -> String {
                     // normwise backward error: smallest relative (to max|a_k|) coefficient perturbation making z a root
                     let be = cabs(pv) / (amax * scale).max(1e-300);
                     if be > cx_maxbe(cx) { cx.meta.retain(|kv| kv.0 != "maxbe"); cx.meta("maxbe", format!("{:e}", be)); }
-                    if be > 1e-7 { cx.fail(format!("root {} = ({:e},{:e}) has backward error {:e} (|p(z)| = {:e}, max|a| = {:e})", k, zk.real, zk.imag, be, cabs(pv), amax)); }
+                    // the closed quadratic formula is backward stable (no iteration, no deflation): hold it to 1e-12
+                    let lim = if n <= 2 { 1e-12 } else { 1e-7 };
+                    if be > lim { cx.fail(format!("root {} = ({:e},{:e}) has backward error {:e} (|p(z)| = {:e}, max|a| = {:e})", k, zk.real, zk.imag, be, cabs(pv), amax)); }
                 }
                 if !cx.fails.is_empty() && n > 3 {
                     // classify: does the reference copy of the pinned Laguerre + deflation algorithm fail on this input too?
@@ -181,6 +183,20 @@ pub fn gen(rng: &mut Rng, tier: Tier, out: &mut Vec<String>) {
         let mut c2 = c.clone(); c2[deg] = Cmplx::new(0.0, rng.range(1, 3) as f64); c2[0] = Cmplx::new(cst.imag, cst.real);
         emit(out, "c", "pure-power-complex", refine, &c2, &[]);
     } } }
+    // closed-form paths with coefficients of very different scale (ratio up to 1e6) and every direction of the
+    // middle coefficient in the complex plane: the sign choice of the stable formulae must avoid cancellation
+    let nd = if tier == Tier::Quick { 60 } else { 2000 };
+    for i in 0..nd { for refine in 0..2usize {
+        let dir = |rng: &mut Rng, m: f64| -> Cmplx { match rng.below(6) { 0 => Cmplx::new(m, 0.0), 1 => Cmplx::new(-m, 0.0), 2 => Cmplx::new(0.0, m), 3 => Cmplx::new(0.0, -m),
+            4 => Cmplx::new(m * (rng.range(-8, 8) as f64) / 64.0, m * if rng.chance(50) { 1.0 } else { -1.0 }), _ => Cmplx::new(m * (rng.range(-8, 8) as f64 + 0.5) / 8.0, m * (rng.range(-8, 8) as f64 + 0.5) / 8.0) } };
+        let big = (2.0f64).powi(rng.range(0, 19) as i32) * (1.0 + rng.below(8) as f64 / 8.0);
+        let (ma, mc, md) = (1.0 + rng.below(3) as f64, 1.0 + rng.below(3) as f64, 1.0 + rng.below(3) as f64);
+        let (a, b, c) = (dir(rng, ma), dir(rng, big), dir(rng, mc));
+        emit(out, "c", "quadratic-disparity", refine, &[c, b, a], &[]);
+        if i % 3 == 0 { emit(out, "f", "quadratic-disparity", refine, &[Cmplx::new(c.real + c.imag, 0.0), Cmplx::new(b.real + b.imag, 0.0), Cmplx::new(a.real + a.imag, 0.0)], &[]); }
+        if i % 2 == 0 { let d = dir(rng, md); let b2 = dir(rng, big.sqrt());
+            emit(out, "c", "cubic-disparity", refine, &[c, b2, b, a], &[]); emit(out, "c", "cubic-disparity", refine, &[c, b, d, a], &[]); }
+    } }
     // degree 0 and the empty polynomial are rejected
     emit(out, "f", "degree0", 0, &[Cmplx::new(3.0, 0.0)], &[]);
     emit(out, "c", "degree0", 1, &[Cmplx::new(3.0, 1.0)], &[]);
